@@ -787,17 +787,86 @@ func c05Random[V any](c *run.Ctx, k omKind[V], phase string) {
 			fullEvery = 128
 		}
 		var m *ordered.Map[string, V]
-		switch r.IntN(3) {
+		p := &refmodel.PairList[V]{}
+		serial := 0
+		nextVal := func() V { serial++; return k.mkVal(r, serial) }
+		// a map built from a caller-owned slice of pairs (possibly with a repeated key), and a sibling built from the
+		// same slice: neither the slice nor the sibling may change when m is operated on
+		var src, srcCopy []ordered.Tuple[string, V]
+		var sib *ordered.Map[string, V]
+		var sibModel *refmodel.PairList[V]
+		switch r.IntN(4) {
 		case 0:
 			m = new(ordered.Map[string, V])
 		case 1:
 			m = ordered.NewMap[string, V](r.IntN(4))
-		default:
+		case 2:
 			m = ordered.MapFromItems[string, V]()
+		default:
+			dup := false
+			seen := map[string]bool{}
+			for j, n := 0, 1+r.IntN(6); j < n; j++ {
+				key := alphabet[r.IntN(len(alphabet))]
+				if seen[key] {
+					if r.IntN(2) == 0 {
+						continue
+					}
+					dup = true
+				}
+				seen[key] = true
+				src = append(src, ordered.Tuple[string, V]{Key: key, Value: nextVal()})
+			}
+			src = src[:len(src):len(src)]
+			srcCopy = append(srcCopy, src...)
+			m = ordered.MapFromItems(src...)
+			sib = ordered.MapFromItems(src...)
+			if dup {
+				// what a repeated key means is not specified: the model is what iteration shows, and every
+				// other observer has to agree with it (keys distinct and taken from the given ones)
+				bad := ""
+				_ = rangeSafe(m, func(key string, v V) error {
+					if _, has := p.Get(key); has || !seen[key] {
+						bad = fmt.Sprintf("MapFromItems with a repeated key: iteration yields key %q twice or a key that was not given", key)
+					}
+					p.Set(key, v)
+					return nil
+				})
+				if bad == "" && p.Len() != len(seen) {
+					bad = fmt.Sprintf("MapFromItems with a repeated key: iteration yields %d pairs, %d distinct keys were given", p.Len(), len(seen))
+				}
+				if bad != "" {
+					c.Violation(run.CaseID(phase, i), map[string]any{"what": bad, "layout": layoutOf(m), "given_pairs": len(src)})
+					return
+				}
+				c.Count("maps_built_from_items_with_repeated_key", 1)
+			} else {
+				for _, t := range src {
+					p.Set(t.Key, t.Value)
+				}
+			}
+			sibModel = p.Clone()
+			c.Count("maps_built_from_a_caller_owned_slice", 1)
+			if msg := observe(c, k, m, p, alphabet, true, r); msg != "" {
+				c.Violation(run.CaseID(phase, i), map[string]any{"what": "right after MapFromItems: " + msg, "layout": layoutOf(m), "given_pairs": len(src)})
+				return
+			}
 		}
-		p := &refmodel.PairList[V]{}
-		serial := 0
-		nextVal := func() V { serial++; return k.mkVal(r, serial) }
+		checkSibling := func(step int) bool {
+			if sib == nil {
+				return true
+			}
+			for j := range src {
+				if src[j].Key != srcCopy[j].Key || !valEq(k, src[j].Value, srcCopy[j].Value) {
+					c.Violation(run.CaseID(phase, i), map[string]any{"what": fmt.Sprintf("operating on a map built with MapFromItems changed the caller's slice of pairs at index %d (%q -> %q)", j, srcCopy[j].Key, src[j].Key), "step": step})
+					return false
+				}
+			}
+			if msg := observe(c, k, sib, sibModel, alphabet, true, r); msg != "" {
+				c.Violation(run.CaseID(phase, i), map[string]any{"what": "a second map built from the same slice of pairs changed while only the first was operated on: " + msg, "step": step, "layout_sibling": layoutOf(sib)})
+				return false
+			}
+			return true
+		}
 		type snap struct {
 			m *ordered.Map[string, V]
 			p *refmodel.PairList[V]
@@ -845,6 +914,9 @@ func c05Random[V any](c *run.Ctx, k omKind[V], phase string) {
 			full := step%fullEvery == 0 || step == nops-1
 			if msg == "" {
 				msg = observe(c, k, m, p, alphabet, full, r)
+			}
+			if msg == "" && (step < 12 || step == nops-1) && !checkSibling(step) {
+				return
 			}
 			c.Count("random_ops", 1)
 			if msg != "" {
